@@ -6,6 +6,7 @@ TITLE = "document hash and level binding"
 
 
 def run(prog, chk):
+    legacy_algorithm_table(prog, chk)
     chk.explanation = (
         "R7 over the six verifying predefined policies: every evaluation path that ends OK contains OK outcomes of the input-level "
         "rule (GEN-03) and either 'no document hash supplied' or both the algorithm equality (GEN-04) and the imprint equality "
@@ -31,3 +32,57 @@ def run(prog, chk):
     PC.check_verify_entry(prog, chk, "C02.entry")
     chk.rule("C02.compare", "the hash comparison behind GEN-01 compares the algorithm octet and every digest octet", floor=50)
     PC.check_comparators(prog, chk, "C02.compare")
+
+
+def legacy_algorithm_table(prog, chk):
+    """GEN-04 (InputHashAlgorithmVerification): the algorithm of the caller's document hash is compared with the algorithm of the hash
+    the signature was made FOR - for a legacy signature that is the RFC3161 record's input hash, not the input of the first aggregation
+    chain (which is the record's OUTPUT and may use another algorithm).  Decision table with the two algorithms different."""
+    import itertools
+    from ksirules.interp import TOP, Interp, Ptr, succeed_model
+    from ksirules.model import AnalysisBroken, lvalue_key, strip
+    from ksirules.policy import PFX
+    chk.rule("C02.legacyalg", "GEN-04 on legacy signatures: compared with the RFC3161 record's input-hash algorithm (decision table, record and chain algorithms different)", floor=6)
+    fn = prog.fn(PFX + "InputHashAlgorithmVerification", "verification_rule.c")
+    ip, rp = [p["n"] for p in fn.params]
+    K = prog.const
+    ALG = {"RECIN": 0, "CHAININ": 1, "DOC0": 0, "DOC1": 1, "DOC5": 5}
+    for legacy, doc in itertools.product((1, 0), ("DOC0", "DOC1", "DOC5")):
+        def out(idx, val):
+            def f(I, p, node, args):
+                I.write(p, lvalue_key(strip(node["a"][idx])["e"], I.fn), val)
+                return 0
+            return f
+
+        def getalg(I, p, node, args):
+            a = ALG.get(getattr(args[0], "what", None))
+            if a is None:
+                return TOP
+            I.write(p, lvalue_key(strip(node["a"][1])["e"], I.fn), a)
+            return 0
+        ov = {"KSI_RFC3161_getInputHash": out(1, Ptr("RECIN")), "KSI_Signature_getDocumentHash": out(1, Ptr("RECIN") if legacy else Ptr("CHAININ")),
+              "KSI_AggregationHashChain_getInputHash": out(1, Ptr("CHAININ")), "rfc3161_extractOutputHashAlgorithm": out(1, ALG["CHAININ"]),
+              "KSI_DataHash_getHashAlg": getalg, "KSI_AggregationHashChainList_elementAt": out(2, Ptr("FIRST")),
+              "KSI_DataHash_extract": lambda I, p, n, a: (I.write(p, lvalue_key(strip(n["a"][1])["e"], I.fn), ALG.get(getattr(a[0], "what", None), TOP))
+                                                            if strip(n["a"][1]).get("k") == "un" else None, 0)[1],
+              "KSI_getHashAlgorithmName": lambda I, p, n, a: Ptr("name")}
+        inputs = {ip: Ptr("INFO"), rp: Ptr("RES"), "INFO->ctx": Ptr("ctx"), "INFO->signature": Ptr("SIG"), "INFO->documentHash": Ptr(doc), "SIG->ctx": Ptr("ctx"),
+                  "SIG->rfc3161": Ptr("REC") if legacy else 0, "SIG->aggregationChainList": Ptr("CHAINS"), "REC->inputHash": Ptr("RECIN"), "FIRST->inputHash": Ptr("CHAININ"),
+                  "RES->stepsPerformed": 0, "RES->stepsSuccessful": 0, "RES->stepsFailed": 0}
+        I = Interp(fn, inputs=inputs, call_model=succeed_model(prog, ov), on_unknown="stop", prog=prog)
+        paths = I.run()
+        chk.paths += len(paths)
+        signed_alg = ALG["RECIN"] if legacy else ALG["CHAININ"]
+        inst = "GEN-04[%s signature made for algorithm %d%s, document hash algorithm %d]" % ("legacy" if legacy else "ordinary", signed_alg,
+                                                                                             " (first chain's input: algorithm %d)" % ALG["CHAININ"] if legacy else "", ALG[doc])
+        if len(paths) != 1 or paths[0].undetermined or paths[0].ret is TOP:
+            raise AnalysisBroken("InputHashAlgorithmVerification: evaluation not determined for %s: %s" % (inst, [q.undetermined[:1] for q in paths]))
+        q = paths[0]
+        rc, ec = I.read(q, "RES->resultCode"), I.read(q, "RES->errorCode")
+        if ALG[doc] == signed_alg:
+            ok = q.ret == 0 and rc == K("KSI_VER_RES_OK")
+            want = "OK"
+        else:
+            ok = q.ret == 0 and rc == K("KSI_VER_RES_FAIL") and ec == K("KSI_VER_ERR_GEN_4")
+            want = "FAIL / GEN-04"
+        chk.ob("C02.legacyalg", inst, ok, "expected %s; source: status %s, verdict %s / error code %s" % (want, q.ret, rc, ec), loc=fn.loc(), fn=fn, nontrivial=bool(legacy))
